@@ -1,5 +1,207 @@
-(* placeholder until Proofs.v is written *)
-From OV Require Import Common.Base C08.Model.
-Example C08_placeholder : f_reply repaired = true.
-Proof. reflexivity. Qed.
-Print Assumptions C08_placeholder.
+(* C08/Properties.v — RADIUS messages take effect only when authenticated with the shared secret.
+   Every theorem quantifies over the hash function [md5raw] (MD5 is an argument, not an axiom), over all
+   datagrams, configurations and histories.  The full theorems are about the [repaired] model (what the
+   fix patches under fixes/C08_*.patch implement); each [_refuted] lemma shows that the corresponding
+   statement fails for the behaviour of the unchanged code ([defective] / one repair flag off). *)
+From OV Require Import Common.Base C08.Model C08.Proofs.
+Import ListNotations.
+Local Open Scope list_scope.
+Local Open Scope N_scope.
+
+(* ---------------------------------------------------------------------------------------------
+   1. Replies (radiusConn.exchange / readLoop).  For every sequence of sends, received datagrams and
+   timeouts on one client socket: whenever a datagram is handed to a waiting exchange, a request with
+   that identifier is outstanding (sent, not yet answered, not timed out), the datagram carries that
+   identifier, its Response Authenticator verifies against the authenticator of THAT request under the
+   server secret, and its Message-Authenticator verifies when present.  Since [awaiting] becomes None
+   after a delivery, at most one datagram is accepted per request. *)
+Theorem C08_reply_authentic :
+  forall md5raw secret ops st outs,
+    Forall op_wf ops ->
+    crun md5raw repaired secret pending0 ops = (st, outs) ->
+    deliveries_authentic md5raw secret (rev (events ops outs)).
+Proof. exact reply_authentic. Qed.
+Print Assumptions C08_reply_authentic.
+
+(* the same with unforgeability as an explicit premise about the world: if only datagrams issued by the
+   key holder for a given request authenticator verify, only issued datagrams are ever acted upon *)
+Theorem C08_forged_not_acted_on :
+  forall md5raw secret (issued : bytes -> bytes -> Prop),
+    (forall reqauth d, resp_auth_ok md5raw secret reqauth d = true -> issued reqauth d) ->
+    forall ops st outs,
+      Forall op_wf ops ->
+      crun md5raw repaired secret pending0 ops = (st, outs) ->
+      deliveries_issued issued (rev (events ops outs)).
+Proof. exact forged_not_acted_on. Qed.
+Print Assumptions C08_forged_not_acted_on.
+
+(* toy hash used only for concrete witnesses (the theorems hold for every function) *)
+Definition toy (l : bytes) : bytes := [fold_left (fun a x => (a * 31 + x + 7) mod 256) l 1].
+Definition ex_secret : bytes := [115; 51].
+Definition ex_req : bytes := [1; 7; 0; 20] ++ repeat 17 16.
+Definition ex_forged : bytes := [2; 7; 0; 20] ++ repeat 1 16.
+Definition ex_genuine : bytes :=
+  [2; 7; 0; 20] ++ md5 toy ([2; 7; 0; 20] ++ repeat 17 16 ++ ex_secret).
+
+Example C08_reply_authentic_nonvacuous :
+  crun toy repaired ex_secret pending0 [CSend 7 ex_req; CRecv ex_forged; CRecv ex_genuine; CRecv ex_genuine]
+  = (pending0, [None; None; Some 7; None]).
+Proof. vm_compute. reflexivity. Qed.
+Print Assumptions C08_reply_authentic_nonvacuous.
+
+(* today's readLoop: the forged datagram is delivered although its authenticator does not verify *)
+Lemma C08_reply_authentic_refuted :
+  exists md5raw secret ops st outs,
+    Forall op_wf ops /\
+    crun md5raw defective secret pending0 ops = (st, outs) /\
+    ~ deliveries_authentic md5raw secret (rev (events ops outs)).
+Proof.
+  exists toy, ex_secret, [CSend 7 ex_req; CRecv ex_forged], pending0, [None; Some 7].
+  split; [repeat constructor; reflexivity|]. split; [vm_compute; reflexivity|].
+  intros [[req (Ha & _ & Hr & _)] _]. vm_compute in Ha. inversion Ha; subst.
+  vm_compute in Hr. discriminate.
+Qed.
+Print Assumptions C08_reply_authentic_refuted.
+
+(* ---------------------------------------------------------------------------------------------
+   2. CoA / Disconnect admission.  A datagram makes the listener publish a mutation or terminate event
+   only if its source lies in a configured client net (the first one that contains it), its Request
+   Authenticator verifies under THAT client's secret, its Message-Authenticator verifies when present,
+   and its Event-Timestamp (when the window is enabled and the attribute present and non-zero) is within
+   the replay window of the local clock. *)
+Theorem C08_coa_admission :
+  forall md5raw cfg now src bus raw e,
+    effect (coa_step md5raw repaired cfg now src bus raw) = Some e ->
+    exists cl c p,
+      nth_error (clients cfg) cl = Some c /\ contains c src = true /\
+      (forall j c', (j < cl)%nat -> nth_error (clients cfg) j = Some c' -> contains c' src = false) /\
+      parse raw = Some p /\
+      req_auth_ok md5raw (c_secret c) (truncate raw) = true /\
+      ma_req_ok_rfc md5raw (c_secret c) (truncate raw) = true /\
+      ((window cfg <= 0)%Z \/ event_ts (p_attrs p) = 0 \/
+       (- window cfg <= now - Z.of_N (event_ts (p_attrs p)) <= window cfg)%Z) /\
+      nasid_ok (nasid cfg) (p_attrs p) = true /\
+      match e with EvMutation _ _ => p_code p = 43 | EvTerminate _ => p_code p = 40 end.
+Proof. exact coa_admission_thm. Qed.
+Print Assumptions C08_coa_admission.
+
+Definition ex_clients : list client := [{| c_addr := 2130706434; c_plen := 32; c_secret := [107] |}].
+Definition ex_cfg : coacfg := {| window := 300; nasid := []; maps := []; clients := ex_clients |}.
+Definition sign_req (secret hdr body : bytes) : bytes := hdr ++ md5 toy (hdr ++ zeros16 ++ body ++ secret) ++ body.
+(* CoA-Request id 9: Acct-Session-Id "s1", Session-Timeout 3600, Event-Timestamp 1000 *)
+Definition ex_coa_body : bytes := [44; 4; 115; 49; 27; 6; 0; 0; 14; 16; 55; 6; 0; 0; 3; 232].
+Definition ex_coa : bytes := sign_req [107] [43; 9; 0; 36] ex_coa_body.
+(* Disconnect-Request id 9: Acct-Session-Id "s1", Event-Timestamp 1000 *)
+Definition ex_dm_body : bytes := [44; 4; 115; 49; 55; 6; 0; 0; 3; 232].
+Definition ex_dm : bytes := sign_req [107] [40; 9; 0; 30] ex_dm_body.
+
+Example C08_coa_admission_nonvacuous :
+  effect (coa_step toy repaired ex_cfg 1100 2130706434 0 ex_coa)
+  = Some (EvMutation (1, [115; 49]) [(k_session_timeout, [51; 54; 48; 48])]) /\
+  effect (coa_step toy repaired ex_cfg 1100 2130706434 0 ex_dm) = Some (EvTerminate (1, [115; 49])) /\
+  effect (coa_step toy repaired ex_cfg 1301 2130706434 0 ex_coa) = None /\     (* outside the window *)
+  effect (coa_step toy repaired ex_cfg 1301 2130706434 0 ex_dm) = None /\
+  effect (coa_step toy repaired ex_cfg 1100 2130706435 0 ex_coa) = None.       (* unconfigured source *)
+Proof. vm_compute. repeat split; reflexivity. Qed.
+Print Assumptions C08_coa_admission_nonvacuous.
+
+(* today: a Disconnect-Request with an all-zero authenticator and no Message-Authenticator takes effect *)
+Lemma C08_coa_admission_refuted :
+  exists md5raw cfg now src bus raw e,
+    effect (coa_step md5raw defective cfg now src bus raw) = Some e /\
+    forall c, In c (clients cfg) -> req_auth_ok md5raw (c_secret c) (truncate raw) = false.
+Proof.
+  exists toy, ex_cfg, 1100%Z, 2130706434, 0, ([40; 9; 0; 24] ++ zeros16 ++ [44; 4; 115; 49]), (EvTerminate (1, [115; 49])).
+  split; [vm_compute; reflexivity|].
+  intros c [<-|[]]. vm_compute. reflexivity.
+Qed.
+Print Assumptions C08_coa_admission_refuted.
+
+(* today: the replay window is not applied to Disconnect-Request (all other repairs in place) *)
+Lemma C08_disconnect_window_refuted :
+  exists md5raw cfg now src bus raw p t,
+    effect (coa_step md5raw {| f_reply := true; f_coaauth := true; f_dmwin := false; f_white := true |}
+                     cfg now src bus raw) = Some (EvTerminate t) /\
+    parse raw = Some p /\ window_ok (window cfg) now (p_attrs p) = false.
+Proof.
+  exists toy, ex_cfg, 100000%Z, 2130706434, 0, ex_dm.
+  eexists. exists (1, [115; 49]).
+  split; [vm_compute; reflexivity|]. split; [vm_compute; reflexivity|]. vm_compute. reflexivity.
+Qed.
+Print Assumptions C08_disconnect_window_refuted.
+
+(* ---------------------------------------------------------------------------------------------
+   3. A CoA changes only documented mutable attributes.  The attribute delta of a published mutation is
+   non-empty, every key is in the documented mutable set (internal/subscriber/mutation.go
+   allowedMutationAttrs) and none is an identity/addressing attribute of the strip list; the target is
+   resolved from the identification attributes of the packet alone.  A Disconnect takes effect only when the
+   packet carries nothing but identification attributes. *)
+Theorem C08_coa_mutable_only :
+  forall md5raw cfg now src bus raw e,
+    effect (coa_step md5raw repaired cfg now src bus raw) = Some e ->
+    exists p, parse raw = Some p /\
+      match e with
+      | EvMutation t delta =>
+        resolve_target (p_attrs p) = Some t /\ delta <> [] /\
+        forall k v, In (k, v) delta -> mem k allowed_list = true /\ mem k strip_list = false
+      | EvTerminate t =>
+        resolve_target (p_attrs p) = Some t /\ has_non_ident (p_attrs p) = false
+      end.
+Proof. exact coa_mutable_only_thm. Qed.
+Print Assumptions C08_coa_mutable_only.
+
+Theorem C08_mutable_set_excludes_identity :
+  forallb (fun k => negb (mem k strip_list)) allowed_list = true.
+Proof. exact allowed_disjoint_strip. Qed.
+Print Assumptions C08_mutable_set_excludes_identity.
+
+(* CoA carrying the osvbng VSA 1 (l2gw.handoff-group = "g"), correctly signed *)
+Definition ex_l2gw_body : bytes := [44; 4; 115; 49; 26; 9; 0; 0; 126; 217; 1; 3; 103].
+Definition ex_l2gw : bytes := sign_req [107] [43; 9; 0; 33] ex_l2gw_body.
+Lemma C08_coa_mutable_only_refuted :
+  exists md5raw cfg now src bus raw t delta,
+    effect (coa_step md5raw {| f_reply := true; f_coaauth := true; f_dmwin := true; f_white := false |}
+                     cfg now src bus raw) = Some (EvMutation t delta) /\
+    all_allowed delta = false.
+Proof.
+  exists toy, ex_cfg, 1100%Z, 2130706434, 0, ex_l2gw, (1, [115; 49]), [(k_l2gw_handoff_group, [103])].
+  split; vm_compute; reflexivity.
+Qed.
+Print Assumptions C08_coa_mutable_only_refuted.
+
+(* ---------------------------------------------------------------------------------------------
+   4. The BNG's own CoA/Disconnect ACK/NAK carry valid authenticators: for every request of at least 20
+   octets, every reply code and Error-Cause, the Response Authenticator of the reply verifies against
+   the request authenticator under the client's secret, the Message-Authenticator verifies (it is
+   present whenever the request carried one).  This pins the order MA-then-Response-Authenticator. *)
+Theorem C08_own_replies_verify :
+  forall md5raw secret reqraw p code cause,
+    (20 <= length reqraw)%nat ->
+    let reply := build_coa_reply md5raw repaired secret reqraw p code cause in
+    resp_auth_ok md5raw secret (sub 4 16 reqraw) reply = true /\
+    ma_resp_ok md5raw secret (sub 4 16 reqraw) reply = true /\
+    (find_attr80 reqraw <> None -> find_attr80 reply <> None).
+Proof. exact own_replies_verify. Qed.
+Print Assumptions C08_own_replies_verify.
+
+(* request with a Message-Authenticator attribute and a Proxy-State *)
+Definition ex_ma_req : bytes := [40; 9; 0; 46] ++ repeat 5 16 ++ [44; 4; 115; 49; 33; 4; 9; 9; 80; 18] ++ repeat 3 16.
+Example C08_own_replies_verify_nonvacuous :
+  exists p, parse ex_ma_req = Some p /\
+    let reply := build_coa_reply toy repaired [107] ex_ma_req p 41 201 in
+    find_attr80 reply = Some 32%nat /\ length reply = 48%nat.
+Proof. eexists. split; [vm_compute; reflexivity|]. vm_compute. split; reflexivity. Qed.
+Print Assumptions C08_own_replies_verify_nonvacuous.
+
+(* today's sendResponse: neither authenticator of the reply to a request with MA verifies *)
+Lemma C08_own_replies_verify_refuted :
+  exists md5raw secret reqraw p code cause,
+    parse reqraw = Some p /\
+    let reply := build_coa_reply md5raw defective secret reqraw p code cause in
+    resp_auth_ok md5raw secret (sub 4 16 reqraw) reply = false /\
+    ma_resp_ok md5raw secret (sub 4 16 reqraw) reply = false.
+Proof.
+  exists toy, [107], ex_ma_req. eexists. exists 41, 201.
+  split; [vm_compute; reflexivity|]. vm_compute. split; reflexivity.
+Qed.
+Print Assumptions C08_own_replies_verify_refuted.
